@@ -1,4 +1,5 @@
 import BinlogVerif.Lemmas.Mser
+import BinlogVerif.Lemmas.Dest
 /-
   C05 — Serialize/deserialize round trip; truncation fails with an exception.
 
@@ -38,5 +39,62 @@ theorem exLen : (encode exTy exVal).length = 16 := by
   simp [exTy, exVal, encode, encodeList, encodeAll, encodeNth, Visit.arithSize]
 example : decode exTy ((encode exTy exVal).take 15) = .error .overflow :=
   c05_truncation exTy exVal exTyped 15 (by rw [exLen]; decide)
+
+end BinlogVerif.C05
+
+/-
+  Deserialisation INTO a destination (`Mser/Dest.lean`): a destination may be of fixed size at some
+  sequence nodes (`std::array<T,N>`, `T[N]`, ranges without `resize`); there the encoded element
+  count is compared with the size of the destination BEFORE any element is read.
+-/
+namespace BinlogVerif.C05
+open BinlogVerif BinlogVerif.Mser
+
+/-- a value that fits the destination round-trips, whatever follows it -/
+theorem c05_into_roundtrip (d : Dst) (v : Val) (rest : Bytes) (h : hasTy d.ty v = true)
+    (hf : fits d v = true) :
+    decodeInto d (encode d.ty v ++ rest) = .ok (v, rest) :=
+  decodeInto_encode d v rest h hf
+
+/-- **a fixed-size destination that does not match the encoded size fails with the size-mismatch
+    exception**, whatever follows the value (in particular it does not go on to read the following
+    bytes as elements) -/
+theorem c05_into_mismatch (d : Dst) (v : Val) (rest : Bytes) (h : hasTy d.ty v = true)
+    (hf : fits d v = false) :
+    decodeInto d (encode d.ty v ++ rest) = .error .sizeMismatch :=
+  decodeInto_mismatch d v rest h hf
+
+/-! Non-vacuity: an `std::array<std::string,3>` followed by an int, fed two strings -/
+def exDst : Dst := .tup [.seq (some 3) (.seq none (.arith 99)), .arith 105]
+def exTwo : Val := .tup [.seq [.seq [.num 104, .num 105], .seq [.num 33]], .num 7]
+def exThree : Val := .tup [.seq [.seq [.num 104, .num 105], .seq [.num 33], .seq []], .num 7]
+theorem exTwoTyped : hasTy exDst.ty exTwo = true := by
+  simp [exDst, exTwo, Dst.ty, Dst.tys, hasTy, hasTyList, hasTyAll, Visit.arithSize]
+theorem exTwoNoFit : fits exDst exTwo = false := by
+  simp [exDst, exTwo, fits, fitsList, fitsAll]
+example (rest : Bytes) : decodeInto exDst (encode exDst.ty exTwo ++ rest) = .error .sizeMismatch :=
+  c05_into_mismatch exDst exTwo rest exTwoTyped exTwoNoFit
+/-- the same by evaluation, with nothing following: a decoder that skipped the check would take
+    the int `7` that follows the two strings for the length of a third string -/
+example : decodeInto exDst (encode exDst.ty exTwo) = .error .sizeMismatch := by
+  simp [exDst, exTwo, Dst.ty, Dst.tys, encode, encodeList, encodeAll, decodeInto, decodeIntoList,
+    Visit.arithSize, readU, takeN, le, unle]
+/-- …and the three-string value fits and round-trips -/
+example (rest : Bytes) : decodeInto exDst (encode exDst.ty exThree ++ rest) = .ok (exThree, rest) :=
+  c05_into_roundtrip exDst exThree rest
+    (by simp [exDst, exThree, Dst.ty, Dst.tys, hasTy, hasTyList, hasTyAll, Visit.arithSize])
+    (by simp [exDst, exThree, fits, fitsList, fitsAll])
+
+/-- without fixed-size nodes `decodeInto` is `decode` (so C05's other theorems apply to it) -/
+theorem c05_into_eq_decode (d : Dst) (hnf : noFixed d = true) (r : Bytes) :
+    decodeInto d r = decode d.ty r :=
+  decodeInto_eq_decode d hnf r
+
+/-- every truncation point of the encoding fails with an exception (overflow or size mismatch),
+    never a value -/
+theorem c05_into_truncation (d : Dst) (v : Val) (h : hasTy d.ty v = true) (n : Nat)
+    (hn : n < (encode d.ty v).length) :
+    ∃ e, decodeInto d ((encode d.ty v).take n) = .error e ∧ (e = .overflow ∨ e = .sizeMismatch) :=
+  decodeInto_trunc d v h n hn
 
 end BinlogVerif.C05
